@@ -73,7 +73,7 @@ def _derived_by_map(cfg, nid, name, arg, depth=0, seen=None):
     """Every definition of `name` reaching nid is an elementwise / order-preserving image
     (np.array, list, map, comprehension over, zip(*)) of `arg` or of another such value."""
     seen = seen or set()
-    if name == arg:
+    if name == arg or name == '<likelihood>':
         return True
     if depth > 8:
         return False
@@ -111,16 +111,18 @@ def _map_sources(v):
         return [v.func.value.id]
     if isinstance(v, ast.Call):
         d = dotted(v.func) or ''
-        if (d in ('np.array', 'np.asarray', 'list', 'tuple', 'np.copy', 'np.nan_to_num',
-                  'np.clip', 'np.maximum', 'np.minimum', 'np.abs', 'np.where', 'np.exp',
-                  'np.log', 'np.float64', 'np.atleast_1d') or d in TNAMES) and v.args:
+        if d in TNAMES:
+            return None      # the prior may return a dict: its len is not the batch length
+        if d in ('np.array', 'np.asarray', 'list', 'tuple', 'np.copy', 'np.nan_to_num',
+                 'np.clip', 'np.maximum', 'np.minimum', 'np.abs', 'np.where', 'np.exp',
+                 'np.log', 'np.float64', 'np.atleast_1d') and v.args:
             return _map_sources(v.args[0])
-        if d == 'map' and len(v.args) == 2:
-            return _map_sources(v.args[1])
-        if d.endswith('.map') and len(v.args) == 2:
+        if (d == 'map' or d.endswith('.map')) and len(v.args) == 2:
+            if dotted(v.args[0]) == 'self.likelihood':
+                return ['<likelihood>']
             return _map_sources(v.args[1])
         if d in ('self.likelihood',) and v.args:
-            return _map_sources(v.args[0])      # vectorised likelihood: one value per row
+            return ['<likelihood>']      # one value per evaluated row (user contract)
         if d == 'zip' and len(v.args) == 1 and isinstance(v.args[0], ast.Starred):
             return _map_sources(v.args[0].value)
         return None
